@@ -421,6 +421,7 @@ func c10genpair(c *core.Check, st *tmpl.Static) {
 		cfg.MaxDepth = 1
 	}
 	cfg.MaxRuns = 200000
+	cfg.TypedefRefs = true
 	agg := newAggregate()
 	shapes := map[string]bool{}
 	runs, trunc, err := st.EnumerateWorlds(cfg, func(w *tmpl.World) error {
@@ -466,6 +467,17 @@ func c10genpair(c *core.Check, st *tmpl.Static) {
 		if perr1 != nil || perr2 != nil || perr3 != nil {
 			agg.fail("emitted-code-parses", fastgoRel, fmt.Sprintf("under [%s] shape %s: emitted statements do not parse: %v %v %v", val, sh, perr1, perr2, perr3))
 			return nil
+		}
+		// the emitted statements must not declare variables they never use (loop variables around constant increments)
+		agg.check("emitted-code-typechecks", fastgoRel)
+		for which, lines := range map[string][]string{"BLength": bl, "FastAppend": ap, "FastRead": rd} {
+			if pg, perr := tmpl.ParseGo(strings.Join(lines, "\n"), true); perr == nil {
+				for _, d := range pg.Diag {
+					if strings.Contains(d, "declared and not used") || strings.Contains(d, "redeclared") || strings.Contains(d, "no new variables") {
+						agg.fail("emitted-code-typechecks", fastgoRel, fmt.Sprintf("under [%s] shape %s: the %s code emitted for this field does not compile: %s", val, sh, which, d))
+					}
+				}
+			}
 		}
 		// byte counts
 		agg.check("blength-equals-append", fastgoRel+"/genBLengthField~genFastAppendField")
@@ -519,6 +531,7 @@ func c10genpair(c *core.Check, st *tmpl.Static) {
 	agg.flush(c, map[string]string{
 		"emitters-interpreted":             "the emitters stay inside the interpreted Go subset",
 		"emitted-code-parses":              "emitted statements parse as Go",
+		"emitted-code-typechecks":          "emitted statements declare no unused or duplicate variables",
 		"blength-equals-append":            "symbolic byte count of BLength = bytes FastAppend writes",
 		"append-header":                    "3-byte header (spec wire type, id high, id low)",
 		"read-consumes-what-append-writes": "FastRead's wire-event tree equals FastAppend's",
